@@ -21,31 +21,30 @@ def m_ranges(parts, lo=2, hi=32768):
 def run(tier, seed):
     res = core.Result("C13", tier, seed)
     jobs = []
-    libs = ["-lrapidcheck"]
     sweepM = [2048, 3, 1000] if tier == "quick" else LISTED
     builds = ["optim", "debug"]
     for M in sweepM:
         for k in range(16):
             lo, hi = k << 28, (k + 1) << 28
-            jobs.append(Job("c13", "optim", "spqlios-fma", {"mode": "sweep", "M": M, "lo": lo, "hi": hi}, libs=libs,
+            jobs.append(Job("c13", "optim", "spqlios-fma", {"mode": "sweep", "M": M, "lo": lo, "hi": hi},
                             label="sweep M=%d [%d,%d)" % (M, lo, hi)))
     if tier == "thorough":  # debug build (different code generation of the 64-bit arithmetic) for the two key moduli
         for M in (2048, 1000):
             for k in range(16):
-                jobs.append(Job("c13", "debug", "spqlios-fma", {"mode": "sweep", "M": M, "lo": k << 28, "hi": (k + 1) << 28}, libs=libs))
+                jobs.append(Job("c13", "debug", "spqlios-fma", {"mode": "sweep", "M": M, "lo": k << 28, "hi": (k + 1) << 28}))
     for b in builds:
         for (a, z) in m_ranges(16 if b == "optim" else 16):
-            jobs.append(Job("c13", b, "spqlios-fma", {"mode": "boundary", "Mlo": a, "Mhi": z}, libs=libs))
-        jobs.append(Job("c13", b, "spqlios-fma", {"mode": "pow2", "seed": seed}, libs=libs))
+            jobs.append(Job("c13", b, "spqlios-fma", {"mode": "boundary", "Mlo": a, "Mhi": z}))
+        jobs.append(Job("c13", b, "spqlios-fma", {"mode": "pow2", "seed": seed}))
         n = 200000 if tier == "quick" else 5000000
-        jobs.append(Job("c13", b, "spqlios-fma", {"mode": "rc"}, rc_params=core.rc_params(core.splitmix(seed, 13 + len(b)), n), libs=libs))
+        jobs.append(Job("c13", b, "spqlios-fma", {"mode": "rc"}, rc_params=core.rc_params(core.splitmix(seed, 13 + len(b)), n)))
     for k in range(16):
-        jobs.append(Job("c13", "optim", "spqlios-fma", {"mode": "conv", "lo": k << 28, "hi": (k + 1) << 28, "seed": seed}, libs=libs))
+        jobs.append(Job("c13", "optim", "spqlios-fma", {"mode": "conv", "lo": k << 28, "hi": (k + 1) << 28, "seed": seed}))
     if tier == "thorough":
         for k in range(16):
-            jobs.append(Job("c13", "debug", "spqlios-fma", {"mode": "conv", "lo": k << 28, "hi": (k + 1) << 28, "seed": seed + 1}, libs=libs))
+            jobs.append(Job("c13", "debug", "spqlios-fma", {"mode": "conv", "lo": k << 28, "hi": (k + 1) << 28, "seed": seed + 1}))
     # the numeric functions live in the back-end independent core; one other back-end as a cross-check of that claim
-    jobs.append(Job("c13", "optim", "fftw", {"mode": "boundary", "Mlo": 2040, "Mhi": 2056}, libs=libs))
+    jobs.append(Job("c13", "optim", "fftw", {"mode": "boundary", "Mlo": 2040, "Mhi": 2056}))
     core.run_jobs(jobs)
     for j in jobs:
         res.absorb(j)
@@ -62,3 +61,5 @@ def run(tier, seed):
     res.assumptions = ["oracle: 128-bit integer rounding relation |M*phase - r*2^32| <= 2^31 (mod M*2^32), ties accepted either way",
                        "numeric-functions.cpp is back-end independent (same object in all five libraries); spot-checked on fftw"]
     return core.finish(res)
+
+PREBUILD = [("c13", "optim", "spqlios-fma"), ("c13", "debug", "spqlios-fma"), ("c13", "optim", "fftw")]
